@@ -932,6 +932,9 @@ var c12LenientClasses = map[string]bool{
 	"toml-lenient-array-element-key-reuse":         true,
 }
 
+// classes produced by undirected mutations
+var c12RandomClasses = map[string]bool{"swap": true, "dup": true, "table-as-array": true, "array-as-table": true}
+
 func c12RunDoc(c *Cfg, r *Rng, d c12Doc) {
 	line := c12DocProto(d.evs)
 	if len(line) > 6000 {
@@ -964,7 +967,17 @@ func c12RunDoc(c *Cfg, r *Rng, d c12Doc) {
 		ans = "err panic"
 	}
 	if !c.Focus {
-		c.Op("I", "tomldecode "+line, ans)
+		if c12RandomClasses[d.class] {
+			// two list literals may meet at one path (e.g. `a = [{},{}]` and `[[p.a]]` inside an
+			// element of [[p]]): compare the decoding phase only
+			ph := ans
+			if strings.HasPrefix(ans, "ok ") || ans == "conflict" {
+				ph = "ok"
+			}
+			c.Op("I", "tomlphase "+line, ph)
+		} else {
+			c.Op("I", "tomldecode "+line, ans)
+		}
 	}
 	accept := strings.HasPrefix(ans, "ok ")
 	tag := ""
